@@ -45,6 +45,34 @@ def op_gen_cli(c):
         shutil.rmtree(d, ignore_errors=True)
 
 
+def op_gen_main_seq(c):
+    """roberta_generator.main() several times in ONE process (a driver that sets sys.argv per board), in a scratch cwd;
+    per call: exit status and the files that appeared"""
+    import roberta_generator as rg
+    d = _scratch()
+    cwd, old_argv = os.getcwd(), sys.argv
+    os.chdir(d)
+    out, seen = [], set()
+    try:
+        for argv in c["argvs"]:
+            sys.argv = ["roberta_generator.py"] + list(argv)
+            rc, err = 0, ""
+            try:
+                rg.main()
+            except SystemExit as e:
+                rc = e.code or 0
+            except Exception as e:   # noqa: BLE001
+                rc, err = 1, "%s: %s" % (type(e).__name__, e)
+            files, extra = _listing(d)
+            out.append({"rc": rc, "stderr": err, "files": [f for f in files if f[0] not in seen], "extra": extra})
+            seen |= set(f[0] for f in files)
+        return {"seq": out}
+    finally:
+        sys.argv = old_argv
+        os.chdir(cwd)
+        shutil.rmtree(d, ignore_errors=True)
+
+
 def op_api_text(c):
     """the file the API writes for the same parameters: write_robots(gen_rnd_board(seed, length, width, t, m, f), r, p, q)"""
     import roberta_generator as rg
@@ -84,8 +112,14 @@ def op_solver_cli(c):
     try:
         path = os.path.join(d, c["path"])
         os.makedirs(os.path.dirname(path), exist_ok=True)
-        with open(path, "w") as f:
-            f.write(c["text"])
+        if c.get("link_to"):
+            # the file given to -f is a symbolic link to a file of another name: the report is named after what was given
+            with open(os.path.join(os.path.dirname(path), c["link_to"]), "w") as f:
+                f.write(c["text"])
+            os.symlink(c["link_to"], path)
+        else:
+            with open(path, "w") as f:
+                f.write(c["text"])
         env = dict(os.environ, PYTHONPATH=REPO, PYTHONHASHSEED="0", PYTHONDONTWRITEBYTECODE="1")
         p = subprocess.run([sys.executable, os.path.join(REPO, "conditionalrewards.py")] + list(c["argv"]),
                            cwd=d, env=env, stdout=subprocess.PIPE, stderr=subprocess.PIPE, text=True)
@@ -119,5 +153,5 @@ def op_read_dict(c):
         return {"exc": type(e).__name__, "msg": str(e)[:300]}
 
 
-OPS = {"gen_cli": op_gen_cli, "api_text": op_api_text, "manual_name": op_manual_name, "solver_cli": op_solver_cli,
+OPS = {"gen_cli": op_gen_cli, "gen_main_seq": op_gen_main_seq, "api_text": op_api_text, "manual_name": op_manual_name, "solver_cli": op_solver_cli,
        "read_dict": op_read_dict}
